@@ -30,12 +30,12 @@ func init() {
 		Level: "exploration",
 		Rule: "the C01 value stream (deltas capped at 0x0FFFFFFF) with running status on and off, tracks whose bodies have exactly 127/128/255/256/16383/16384/65535/65536 bytes, a sweep of track body sizes (quick: +-40 bytes around every multiple of 4096 up to 128 KiB and all sizes 4..700; thorough: every size 4..70000), and a sweep of the variable-length quantities through the public API " +
 			"(tracks of events whose deltas enumerate the range: quick = all values < 2^22, +-512 around every 2^7k boundary, 2^28-1 and a stride sample; thorough = all 2^28 legal values), plus 5-byte values of the 32-bit range and payload sizes at every length-VLQ boundary. " +
-			"Every written byte stream goes through a strict SMF 1.0 validator. distinct: VLQ sweep values are distinct by construction; files by content hash; every case is non-trivial",
+			"Every written byte stream goes through a strict SMF 1.0 validator; a value is also written after writes of another value have failed (destination error, closed file, missing directory) and must emit the same bytes as before. distinct: VLQ sweep values are distinct by construction; files by content hash; every case is non-trivial",
 		Assumptions: []string{
 			"the strict validator harness/ref/smf.go (header length 6, ntrks == number of MTrk chunks, exact chunk lengths, exactly one end-of-track and last, canonical VLQs of at most 4 bytes, running status only directly after a channel event of the same track, no alien chunks, no trailing bytes)",
 			"for deltas above 0x0FFFFFFF (5-byte form accepted by the API) only the round trip is required, not validity (statement)",
 		},
-		Require: []string{"writefile_onto_existing", "writeto_file_at_offset", "files_validated", "vlq_values", "vlq_5byte_values", "bytes_emitted", "determinism_checks", "chunk_boundary_files", "length_vlq_boundaries", "running_status_events", "body_sizes_swept", "write_change_write_values"},
+		Require: []string{"writefile_onto_existing", "writeto_file_at_offset", "files_validated", "vlq_values", "vlq_5byte_values", "bytes_emitted", "determinism_checks", "chunk_boundary_files", "length_vlq_boundaries", "running_status_events", "body_sizes_swept", "write_change_write_values", "writes_after_failed_write"},
 		Run:     runC03,
 	})
 }
@@ -135,6 +135,69 @@ func runC03(c *mon.Ctx) {
 		if c03Check(c, a.s, a.sh, in, true) != nil {
 			c.Count("write_change_write_values", 1)
 		}
+	})
+
+	// ---- a write that fails (destination error at some offset, a closed file, WriteFile into a directory that does
+	// not exist), then a write of another value in the same process: the second write must emit exactly what it
+	// emitted before the failure (nothing of the failed write may be left in buffers that outlive the call)
+	c.Each("write-after-failed-write", c.N(1500, 60_000), func(i int64, r *mon.Rand) {
+		a := buildHistory(r, 0x0FFFFFFF, false)
+		b := buildHistory(r, 0x0FFFFFFF, false)
+		in := map[string]any{"failing history": a.desc, "history": b.desc}
+		before := c03Check(c, b.s, b.sh, in, true)
+		if before == nil {
+			return
+		}
+		var refA recWriter
+		if _, err := a.s.WriteTo(&refA); err != nil {
+			return
+		}
+		size := refA.buf.Len()
+		fails := 1 + r.Intn(3)
+		for k := 0; k < fails; k++ {
+			var err error
+			switch mode := r.Intn(5); mode {
+			case 0, 1, 2:
+				off := r.Intn(size)
+				if r.P(1, 3) {
+					off = r.Pick(0, 1, 13, 14, 15, 21, 22, size-1)
+					if off >= size || off < 0 {
+						off = size - 1
+					}
+				}
+				w := &faultWriter{limit: off, short: mode == 1, full: mode == 2, err: writeFaultKinds[r.Intn(len(writeFaultKinds))]}
+				in["failure"] = fmt.Sprintf("destination fails at byte offset %d of %d (mode %d, %T)", off, size, mode, w.err)
+				_, err = a.s.WriteTo(w)
+			case 3:
+				f, ferr := os.CreateTemp(c.Dir, "closed-*.mid")
+				if ferr != nil {
+					continue
+				}
+				f.Close()
+				os.Remove(f.Name())
+				in["failure"] = "destination is a closed *os.File"
+				_, err = a.s.WriteTo(f)
+			default:
+				in["failure"] = "WriteFile into a directory that does not exist"
+				err = a.s.WriteFile(filepath.Join(c.Dir, "no-such-dir", fmt.Sprintf("x-%d.mid", i)))
+			}
+			if err == nil {
+				return // decided by C10
+			}
+		}
+		c.Count("writes_after_failed_write", 1)
+		in["failed writes before"] = fails
+		var w recWriter
+		n, err := b.s.WriteTo(&w)
+		c.Eval(1)
+		if err != nil || n != int64(w.buf.Len()) || !bytes.Equal(w.buf.Bytes(), before) {
+			in["bytes"] = mon.Hex(head(w.buf.Bytes(), 200))
+			c.Violation("after-failed-write", fmt.Sprintf("after %d failed write(s) of another value the write of this value emits different bytes than before (size %d / %d bytes received, before %d; err %v)", fails, n, w.buf.Len(), len(before), err), in, mon.Hex(head(before, 200)), mon.Hex(head(w.buf.Bytes(), 200)))
+			return
+		}
+		c03Check(c, b.s, b.sh, in, true)
+		// and the value whose write failed is written correctly now
+		c03Check(c, a.s, a.sh, map[string]any{"history": a.desc, "note": "written after its own write had failed"}, true)
 	})
 
 	// ---- WriteFile onto a path that already holds something (a longer, shorter or equally long earlier
